@@ -457,7 +457,13 @@ func (g *rpcGen) op(t *rapid.T) Op {
 			if mode != "kill" && mode != "bogusmode" && s == c.caller {
 				c.live = pct(t, 10, "keeplive") // sometimes cancel again later
 			}
-			return Op{K: "cancel", S: s, Ref: fmt.Sprintf("call:%d:%d", c.caller, c.callN), Mode: mode}
+			ref := fmt.Sprintf("call:%d:%d", c.caller, c.callN)
+			if pct(t, 55, "latestcall") {
+				// the caller's latest call: the generator's own numbering drifts when requests
+				// are refused, the latest one is the one most likely still pending
+				ref = fmt.Sprintf("call:%d:-1", c.caller)
+			}
+			return Op{K: "cancel", S: s, Ref: ref, Mode: mode}
 		}
 		return Op{K: "cancel", S: g.pickSess(t, g.callers, "xs"), Ref: genRefTo(t, "call", g.nsess, 10), Mode: mode}
 	case 4, 5:
@@ -477,6 +483,9 @@ func (g *rpcGen) op(t *rapid.T) Op {
 				op.S = uni(t, g.nsess, "stranger")
 			}
 			op.Ref = fmt.Sprintf("inv:%d:%d", c.callee, c.invN)
+			if pct(t, 55, "latestinv") {
+				op.Ref = fmt.Sprintf("inv:%d:-1", c.callee) // that callee's latest invocation
+			}
 			if _, prog := optGet(op.Opts, "progress"); !prog && op.S == c.callee {
 				c.live = pct(t, 12, "answeragain") // duplicate / late answers
 			}
@@ -565,7 +574,7 @@ func genRPC(t *rapid.T, profile string) *Case {
 	}
 	g := newRPCGen(n, strict, profile, callers, callees)
 	maxOps := 35
-	ops := rapid.SliceOfN(rapid.Custom(func(t *rapid.T) Op { return g.op(t) }), 1, maxOps).Draw(t, "ops")
+	ops := rapid.SliceOfN(rapid.Custom(func(t *rapid.T) Op { return g.op(t) }), minHistory(t, maxOps), maxOps).Draw(t, "ops")
 	c.Ops = ops
 	if profile == "C03" && pct(t, 12, "rotation") {
 		appendRotation(t, c)
